@@ -50,7 +50,12 @@ def new_labels(rng, old, kind, mode):
     if mode == 'otherkind' and kind in 'if':
         # same numbers in the other numeric kind (1 == 1.0), plus possibly a missing one
         conv = float if kind == 'i' else (lambda v: int(v) if float(v).is_integer() else int(v) + 1000)
-        return [conv(v) for v in rng.sample(old, rng.randint(1, len(old)))]
+        new = [conv(v) for v in rng.sample(old, rng.randint(1, len(old)))]
+        if kind == 'i' and rng.random() < 0.6:
+            # fractional labels requested on an integer axis: missing, and must come back un-truncated
+            for _ in range(rng.randint(1, 2)):
+                new.insert(rng.randint(0, len(new)), rng.choice(old) + rng.choice([0.5, 0.25, -0.5]))
+        return new
     return list(old)
 
 
@@ -82,7 +87,7 @@ def gen_case(rng):
     mode = rng.choice(MODES)
     new = new_labels(rng, sp["labels"][k], kind, mode)
     if method is not None:
-        new = sorted(set([v + rng.choice([0, 0.5, -0.5, 3, -3]) for v in new] or [1.0]))
+        new = sorted(set([v + rng.choice([0, 0.5, -0.5, 3, -3, 0.25, 40]) for v in new] or [1.0]))
     return {"mode": mode, "a": sp, "k": k, "new": new, "form": rng.choice(['list', 'arr', 'Axis']),
             "fill": rng.choice([float('nan'), float('nan'), -99, 0.5]), "raise_error": rng.random() < 0.25,
             "method": method, "axis_by_pos": rng.random() < 0.5}
